@@ -9,6 +9,12 @@ def kf_full_month(fl):
     return fl.get("full_month_arm") is True
 
 
+def kf_ambiguous_endpoint(fl):
+    """known finding C06-ambiguous-endpoint-fold: an endpoint on a repeated wall time (its later occurrence) is rebuilt by
+    Interval.__init__ as a native datetime WITHOUT its fold, so precise_diff decomposes the earlier occurrence"""
+    return fl.get("clause") == "differently_named_zones_decomposed_in_UTC" and fl.get("ambiguous_endpoint") is True
+
+
 def interval_identities(ctx):
     import pendulum
     from pendulum._helpers import is_leap
@@ -79,7 +85,8 @@ def interval_identities(ctx):
         got, exp = fields(b - a), fields(b.in_timezone("UTC") - a.in_timezone("UTC"))
         grev = fields(a - b)
         if got != exp or grev != tuple(-c for c in exp) or (b - a).in_months() != 12 * exp[0] + exp[1]:
-            fails.append({"a": str(a), "b": str(b), "zones": [str(z1), str(z2)], "components": list(got), "reversed": list(grev), "components_of_the_instants_in_UTC": list(exp),
+            amb = lambda x: x.tzinfo.utcoffset(x.naive().replace(fold=0)) != x.tzinfo.utcoffset(x.naive().replace(fold=1)) and x.fold == 1
+            fails.append({"a": str(a), "b": str(b), "zones": [str(z1), str(z2)], "ambiguous_endpoint": bool(amb(a) or amb(b)), "components": list(got), "reversed": list(grev), "components_of_the_instants_in_UTC": list(exp),
                           "clause": "differently_named_zones_decomposed_in_UTC", "full_month_arm": False})
     ctx.record("interval_identities", n, n, "b - a on real Date / naive / UTC / fixed-offset pairs (month-end days, leap years, time borrows): non-negative canonical components, reversed == negated, "
                "in_months, a + (b - a) == b and add(components) == b; pairs in differently named zones (incl. equal offsets) decomposed as their instants in UTC", failures=fails, samples=[{"a": "2022-05-02", "b": "2022-06-01", "note": "known finding C06-full-month"}])
